@@ -603,6 +603,26 @@ def rule_fit(chk, gp):
         chk.violation("fit-system", TR, where, pf.src(acc_st), acc_st.lineno,
                       "%s is overwritten in each iteration of the kernel loop instead of accumulated: only the last "
                       "kernel's covariance enters the system" % cov_name, instance=inst)
+    # the accumulator itself is only ever *added to* inside the loop: a scale applied to the running sum is applied
+    # once more to every earlier kernel's contribution (scaling belongs to the term, or after the loop)
+    inst = "%s: the running sum %s is not rescaled or overwritten inside the kernel loop" % (where, cov_name)
+    bad_acc = []
+    for x in pf.walk_no_nested(lp):
+        if x is acc_st or not isinstance(x, (ast.AugAssign, ast.Assign)):
+            continue
+        for t in ([x.target] if isinstance(x, ast.AugAssign) else x.targets):
+            if pf.base_name(t) == cov_name and not isinstance(t, ast.Attribute):
+                if isinstance(x, ast.AugAssign) and isinstance(x.op, (ast.Add, ast.Sub)) and cov_name not in pf_names(x.value):
+                    continue  # a second additive contribution is still an accumulation
+                bad_acc.append(x)
+    if not bad_acc:
+        chk.ok("fit-system", inst)
+    for x in bad_acc:
+        chk.violation("fit-system", TR, where, pf.src(x), x.lineno,
+                      "`%s` modifies the accumulator %s inside the loop that accumulates it over the kernels (`%s`): "
+                      "after kernel j the running sum already holds kernels 1..j, so they are rescaled again in every "
+                      "later iteration (kernel j ends up scaled nk-j+1 times); scale the term, or the sum after the loop"
+                      % (pf.src(x), cov_name, pf.src(acc_st)), instance=inst)
     # per-kernel solve list appended once per kernel, consumed in the same order
     lists = [gr for x in pf.walk_no_nested(lp) for gr in [growth_local(x)] if gr]
     inst = "%s: per-kernel K^-1 Kmn stored once per kernel and consumed in kernel order" % where
@@ -1082,7 +1102,7 @@ def rule_pairing(chk, gp):
             # role binding: loop target names -> zip arguments when the iterable is a plain zip
             if isinstance(it, ast.Call) and pf.call_name(it) == "zip" and isinstance(x.target, ast.Tuple) \
                     and len(x.target.elts) == len(it.args) and all(isinstance(e, ast.Name) for e in x.target.elts):
-                form = "zip{%s}" % ", ".join(sorted("%s<-%s" % (e.id, pf.src(a)) for e, a in zip(x.target.elts, it.args)))
+                form = "zip{%s}" % ", ".join(sorted(pf.src(a) for a in it.args))
             else:
                 form = pf.src(it)
             forms.setdefault(form, []).append(x)
@@ -1197,6 +1217,144 @@ def reaches_cfg(g, a, b):
     return False
 
 # ----------------------------------------------------------------------------
+# in-place accumulation into an alias of stored per-system state
+# ----------------------------------------------------------------------------
+def _stored_root(e):
+    """<obj>.<attr>[k]...[k] -> attr name (a container stored on an object), else None"""
+    n = 0
+    while isinstance(e, ast.Subscript):
+        e = e.value
+        n += 1
+    if n and isinstance(e, ast.Attribute):
+        return e.attr
+    return None
+
+
+def _array_valued(prog, attr):
+    """evidence from the stores `<obj>.<attr>[key] = v` in train.py: True when v (or its elements) is built from
+    axis-reductions / einsum with an output index / array constructors, False when only from full reductions"""
+    ev = set()
+    mod = prog.module(TR)
+    for fn in [f for c in mod.classes.values() for f in pf.methods(c).values()] + list(mod.functions.values()):
+        for st in pf.walk_no_nested(fn):
+            if isinstance(st, ast.Assign) and any(isinstance(t, ast.Subscript) and isinstance(t.value, ast.Attribute)
+                                                  and t.value.attr == attr for t in st.targets):
+                names = pf_names(st.value)
+                vals = [st.value]
+                for x in pf.walk_no_nested(fn):
+                    if isinstance(x, (ast.Assign, ast.AugAssign)):
+                        ts = x.targets if isinstance(x, ast.Assign) else [x.target]
+                        if any(pf.base_name(t) in names for t in ts):
+                            vals.append(x.value)
+                for v in vals:
+                    for c in ast.walk(v):
+                        if isinstance(c, ast.Call):
+                            last = (pf.call_name(c) or "").split(".")[-1]
+                            if not last and isinstance(c.func, ast.Attribute):
+                                last = c.func.attr
+                            if any(k.arg == "axis" for k in c.keywords):
+                                ev.add(True)
+                            elif last == "einsum" and c.args and isinstance(c.args[0], ast.Constant) \
+                                    and c.args[0].value.replace(" ", "").split("->")[-1] != "":
+                                ev.add(True)
+                            elif last in ("zeros", "empty", "ones", "array", "concatenate", "stack"):
+                                ev.add(True)
+                            elif last in ("sum", "dot") and not c.keywords:
+                                ev.add(False)
+    if True in ev:
+        return True
+    if ev == {False}:
+        return False
+    return None
+
+
+def rule_stored_alias(chk, gp):
+    add = gp.method("add_reactions")
+    cname = gp.cls.name
+    where = cname + ".add_reactions"
+    g = cfgm.CFG(add)
+    state_in = {g.entry.id: {}}
+    work = [g.entry.id]
+
+    def transfer(n, st):
+        st = dict(st)
+        node = n.ast
+        if n.kind == "iter" and isinstance(node, ast.For):
+            for t in ast.walk(node.target):
+                if isinstance(t, ast.Name):
+                    st.pop(t.id, None)
+            return st
+        if n.kind == "stmt" and isinstance(node, ast.Assign):
+            for t in node.targets:
+                if isinstance(t, ast.Name):
+                    v = node.value
+                    root = _stored_root(v)
+                    if root:
+                        st[t.id] = (root, pf.src(v))
+                    elif isinstance(v, ast.Name) and v.id in st:
+                        st[t.id] = st[v.id]
+                    else:
+                        st.pop(t.id, None)
+                elif isinstance(t, (ast.Tuple, ast.List)):
+                    for x in ast.walk(t):
+                        if isinstance(x, ast.Name):
+                            st.pop(x.id, None)
+        return st
+    while work:
+        u = work.pop()
+        so = transfer(g.nodes[u], state_in[u])
+        for v in g.succ[u]:
+            cur = state_in.get(v)
+            new = dict(cur) if cur is not None else {}
+            chg = cur is None
+            for k, val in so.items():
+                if k not in new:
+                    new[k] = val
+                    chg = True
+            if chg:
+                state_in[v] = new
+                work.append(v)
+    nacc, nbad = 0, 0
+    seen = set()
+    for n in g.nodes:
+        if n.kind != "stmt" or n.id not in state_in:
+            continue
+        node = n.ast
+        tgt = None
+        if isinstance(node, ast.AugAssign):
+            tgt = node.target
+        elif isinstance(node, ast.Assign) and isinstance(node.targets[0], ast.Subscript):
+            tgt = node.targets[0]
+        if tgt is None or isinstance(tgt, ast.Attribute):
+            continue
+        root = pf.base_name(tgt)
+        nacc += 1
+        if root in state_in[n.id]:
+            attr, srcx = state_in[n.id][root]
+            arr = _array_valued(gp.prog, attr)
+            key = (attr, pf.src(node).split("__")[0])
+            if key in seen:
+                continue
+            seen.add(key)
+            inst = "%s: an in-place update does not write into state stored in %s" % (where, attr)
+            if arr is True:
+                nbad += 1
+                chk.violation("stored-alias", TR, where, "in-place update of an alias of %s" % attr, node.lineno,
+                              "`%s`: `%s` can be the very object stored in %s (bound by `%s = %s` without a copy on "
+                              "some path), and %s holds numpy arrays: the in-place update changes the per-system data "
+                              "kept by store_mol_covs, so every later reaction that uses the same system (and a "
+                              "reset_reactions/add_reactions replay) sees different covariances"
+                              % (pf.src(node), root, attr, root, srcx, attr), instance=inst)
+            else:
+                chk.note("stored-alias", where, "`%s` updates an alias of %s in place; %s" % (
+                    pf.src(node), attr, "its values are scalars (rebinding, harmless)" if arr is False
+                    else "the kind of its values is not known"))
+    if not nbad:
+        chk.ok("stored-alias", "%s: %d in-place updates of locals examined, none writes through an alias of stored arrays"
+               % (where, nacc))
+
+
+# ----------------------------------------------------------------------------
 def _analyse_own(chk):
     # statement-level helper calls are inlined one level so that the rules see one body per anchored method
     prog = inline.inlined_program(chk.tree, [TR, DK, XE, XE2])
@@ -1206,6 +1364,7 @@ def _analyse_own(chk):
     MODULE_CONSTS.update({k: v for k, v in mod.assigns.items()})
     chk.rule("memo-invalidate", "a cached attribute served under a guard is reset by every method that writes one of its inputs")
     chk.rule("pairing", "sibling loops over the systems of one reaction iterate the same (structs, counts) pairing")
+    chk.rule("stored-alias", "add_reactions never accumulates in place into an alias of the stored per-system arrays")
     chk.rule("fit-snapshot", "state stored by fit is not a pre-rescaling copy later combined with post-rescaling state")
     chk.rule("reset-append", "containers read by fit == appended by add_reactions ⊆ emptied by reset_reactions")
     chk.rule("row-once", "exactly one append per container per reaction on every non-raising path")
@@ -1226,6 +1385,7 @@ def _analyse_own(chk):
         chk.guard(rule_fit, gp)
         chk.guard(rule_pairing, gp)
         chk.guard(rule_snapshot, gp)
+        chk.guard(rule_stored_alias, gp)
     chk.guard(rule_memo, prog)
     # the kernel objects start with an empty list too
     dk = prog.module(DK)
@@ -1240,6 +1400,7 @@ def _analyse_own(chk):
     chk.floor("reset-append", 3, "partition + 3 containers + __init__")
     chk.floor("row-once", 2, "rxn_ref_list, rxn_noise_list, rxn_cov_list of xkernels and of ckernels")
     chk.floor("memo-invalidate", 1, "DFTKernel.get_kctrl computes and returns self.Kmm")
+    chk.floor("stored-alias", 1, "MOLGP.add_reactions")
     chk.floor("pairing", 1, "six loops over zip(rxn['structs'], rxn['counts'])")
     chk.floor("fit-snapshot", 2, "Kcov_, K_, alpha_mol_, y_mol_")
     chk.floor("fit-system", 3, "loop, +=, order, labels, noise, 2 regularisers")
@@ -1340,6 +1501,16 @@ def mutants(tree):
                '                    for sysid, count in zip(rxn["structs"], rxn["counts"]):\n                        if isinstance(sysid, tuple):\n                            rxn_cov += count * kernel.dcov_dict',
                '                    for sysid, count in set(zip(rxn["structs"], rxn["counts"])):\n                        if isinstance(sysid, tuple):\n                            rxn_cov += count * kernel.dcov_dict',
                expect="pairing"),
+        Mutant("covariance scale applied to the running sum inside the kernel loop", TR,
+               "            Knmimn += Kmn.T.dot(Kimn)\n", "            Knmimn += Kmn.T.dot(Kimn)\n            if x is not None:\n                Kimn *= x[0] ** 2\n                Knmimn *= x[0] ** 2\n",
+               expect="fit-system"),
+        Mutant("running sum rescaled by reassignment inside the loop", TR,
+               "            Knmimn += Kmn.T.dot(Kimn)\n", "            Knmimn += Kmn.T.dot(Kimn)\n            Knmimn = 0.5 * Knmimn\n",
+               expect="fit-system"),
+        Mutant("covariance row accumulated into the stored array", TR,
+               "            for kernel in self.xkernels:\n                rxn_cov = 0\n                for sysid, count in zip(rxn[\"structs\"], rxn[\"counts\"]):\n                    if isinstance(sysid, tuple):\n                        rxn_cov += count * kernel.dcov_dict[sysid[0]][sysid[1]]",
+               "            for kernel in self.xkernels:\n                rxn_cov = None\n                for sysid, count in zip(rxn[\"structs\"], rxn[\"counts\"]):\n                    if rxn_cov is None and not isinstance(sysid, tuple):\n                        rxn_cov = kernel.cov_dict[sysid]\n                        continue\n                    if isinstance(sysid, tuple):\n                        rxn_cov += count * kernel.dcov_dict[sysid[0]][sysid[1]]",
+               expect="stored-alias"),
         Mutant("noise block snapshot before the rescaling", TR, fn=_seed_snapshot, expect="fit-snapshot"),
         Mutant("noise not squared", TR, "        noise_nn = noise_nn**2  # get noise covariance from noise std deviation\n", "",
                expect="fit-system"),
